@@ -1,14 +1,14 @@
 #!/bin/sh
 # tools/confirm_demo3.sh <ID> <test-target>: second-wave seeded change in /tmp/mut2-<ID> (patch + demo applied):
 #  1. demo WITH patch must fail, 2. existing suite WITH patch must pass (demo excluded), 3. demo WITHOUT patch must pass
-ID=$1; DEMO=$2; W=/tmp/mut2-$ID
+ID=$1; DEMO=$2; W=${3:-/tmp/mut2-$ID}
 cd $W || exit 2
 T="--target-dir $W/target --offline"
 echo "=== $ID demo WITH patch"; nice -n 10 cargo test $T --test $DEMO 2>&1 | grep -E "^test result|^test .*FAILED|panicked" | head -6
 echo "=== $ID suite WITH patch (demo moved away)"
-mkdir -p /tmp/mut2-hold-$ID; mv tests/$DEMO.rs /tmp/mut2-hold-$ID/
+mkdir -p /tmp/muthold-$ID; mv tests/$DEMO.rs /tmp/muthold-$ID/
 nice -n 10 cargo test $T --workspace --no-fail-fast 2>&1 | grep -E "^test result|FAILED" | head -12
-mv /tmp/mut2-hold-$ID/$DEMO.rs tests/; rmdir /tmp/mut2-hold-$ID
+mv /tmp/muthold-$ID/$DEMO.rs tests/; rmdir /tmp/muthold-$ID
 git apply -R OUT/patch.diff || { echo "cannot revert patch"; exit 2; }
 echo "=== $ID demo WITHOUT patch"; nice -n 10 cargo test $T --test $DEMO 2>&1 | grep -E "^test result|^test .*FAILED|panicked" | head -6
 git apply OUT/patch.diff
